@@ -27,6 +27,8 @@ ASSUMPTIONS = [
 GENERATED_OBLIGATIONS = []
 
 SEGS = ["a", "b", "..", ".", "", "a\\b", "c:", "...", "..a"]
+# characters that LOOK like dots, or become dots / slashes under a compatibility normalisation: to the server they are names
+LOOKALIKES = ["\u2025", "\uff0e\uff0e", "\u2024\u2024", "\uff0e", "\u2024", "a\uff0fb", "\u2215", ".\u200b."]
 CWDS = ["/", "/a", "/a/b", "/x/y/z"]
 BASES = ["/srv/ftp", ".", "rel/base", "/"]
 
@@ -71,8 +73,16 @@ def gen_inputs(ctx, oracle_only=False):
                 else:
                     yield BASES[n % len(BASES)], CWDS[n % len(CWDS)], arg
                     n += 1
+    # the look-alikes at every position of short arguments, among the real dots and names
+    for k in range(1, 4):
+        for combo in itertools.product(SEGS[:4] + LOOKALIKES, repeat=k):
+            if not any(c in LOOKALIKES for c in combo):
+                continue
+            for lead in ("", "/"):
+                yield BASES[n % len(BASES)], CWDS[n % len(CWDS)], lead + "/".join(combo)
+                n += 1
     rng = ctx.rng
-    names = SEGS + ["d", "e e", "é", "-x", '"q"']
+    names = SEGS + LOOKALIKES + ["d", "e e", "é", "-x", '"q"']
     for _ in range(ctx.pick(4000, 60000) * (4 if oracle_only else 1)):
         depth = rng.randint(1, 40)
         arg = rng.choice(["", "/", "//", "///", "////"]) + "/".join(rng.choice(names) for _ in range(depth))
